@@ -328,6 +328,9 @@ package kafka
 //@   loop 0 invariant forall k :: 0 <= k && k <= rangeindex ==> 0 <= int64(msgs[k].totalSize()) && int64(msgs[k].totalSize()) <= batchBytes
 //@   loop 0 after forall k :: 0 <= k && k < len(msgs) ==> 0 <= int64(msgs[k].totalSize()) && int64(msgs[k].totalSize()) <= w.batchBytes()
 //@   loop 1 invariant forall k :: 0 <= k && k < len(msgs) ==> 0 <= int64(msgs[k].totalSize()) && int64(msgs[k].totalSize()) <= w.batchBytes()
+//@   assume a batch's err is final once its done channel is closed (complete() sets err before close(done)); the wait loop reads it only after receiving from done
+//@   loop 2 invariant forall b *writeBatch :: visited(b) && b.err != nil ==> hasErrors
+//@   loop 2 after forall b *writeBatch :: haskey(batches, b) && b.err != nil ==> hasErrors
 
 //@ property C15 C10
 
